@@ -60,6 +60,13 @@ def gen_design(r, cfg):
                         p_["alias_wide"] = ident(r, pn, 0.08)
                         m["ansi"] = False
                         continue
+                    if p_["width"] > 1 and r.random() < 0.3:
+                        # .p({n[0], n[2], n[1]}) : every bit of ONE differently named net, in any order
+                        order = list(range(p_["width"]))
+                        r.shuffle(order)
+                        p_["alias_bits"] = {"net": ident(r, pn, 0.08), "order": order}   # most significant first
+                        m["ansi"] = False
+                        continue
                     p_["alias"] = [ident(r, pn, 0.08) for _ in range(p_["width"])]
                     p_["alias_wire_decl"] = r.random() < 0.5
                     m["ansi"] = False
@@ -147,7 +154,7 @@ def nets_of(m):
             for n in p["alias"]:
                 out[n] = (0, 0)
             continue
-        out[p.get("alias_wide") or p["name"]] = (p["width"] - 1, 0)
+        out[p.get("alias_wide") or (p.get("alias_bits") or {}).get("net") or p["name"]] = (p["width"] - 1, 0)
     for w in m["wires"]:
         out[w["name"]] = (w["msb"], w["lsb"])
     return out
@@ -251,6 +258,9 @@ def expected(d):
             for i in range(p["width"]):
                 if p.get("alias"):
                     touch((p["alias"][p["width"] - 1 - i], 0)).add(("port", p["name"], i))
+                elif p.get("alias_bits"):
+                    ab = p["alias_bits"]
+                    touch((ab["net"], ab["order"][p["width"] - 1 - i])).add(("port", p["name"], i))
                 else:
                     touch((p.get("alias_wide") or p["name"], i)).add(("port", p["name"], i))
         for inst in m["insts"]:
@@ -357,6 +367,10 @@ class Renderer:
             def hdr(p):
                 if p.get("alias_wide"):
                     return ".%s(%s)" % (self.nm(p["name"]), self.nm(p["alias_wide"]))
+                if p.get("alias_bits"):
+                    ab = p["alias_bits"]
+                    return ".%s({%s})" % (self.nm(p["name"]), (self.sp() + "," + self.sp()).join(
+                        "%s[%d]" % (self.nm(ab["net"]), k) for k in ab["order"]))
                 if not p.get("alias"):
                     return self.nm(p["name"])
                 inner = (self.sp() + "," + self.sp()).join(self.nm(x) for x in p["alias"])
@@ -372,8 +386,9 @@ class Renderer:
                         for x in p["alias"]:
                             s.append("  wire %s;\n" % self.nm(x))
                     continue
-                if p.get("alias_wide"):
-                    s.append("  %s %s%s;\n" % (p["dir"], self.rng_(p["width"] - 1, 0) + " ", self.nm(p["alias_wide"])))
+                if p.get("alias_wide") or p.get("alias_bits"):
+                    s.append("  %s %s%s;\n" % (p["dir"], self.rng_(p["width"] - 1, 0) + " ",
+                                               self.nm(p.get("alias_wide") or p["alias_bits"]["net"])))
                     continue
                 s.append("  %s %s%s;\n" % (p["dir"], (self.rng_(p["width"] - 1, 0) + " ") if p["width"] > 1 else "",
                                            self.nm(p["name"])))
